@@ -20,7 +20,8 @@ def make_app(kind: str, tmp: str, app_id: str = "verif", db: str | None = None, 
         b = b.memory()
     else:
         b = b.sqlite(db or os.path.join(tmp, f"{app_id}.db"))
-    cfg = {"logging_level": "critical", "print_arguments": False}
+    # cached_status_time=0: DistributedInvocation.status otherwise serves a 100 ms old value
+    cfg = {"logging_level": "critical", "print_arguments": False, "cached_status_time": 0.0}
     cfg.update(conf)
     b = b.custom_config(**cfg)
     app = b.build()
